@@ -56,7 +56,7 @@ def generate(rng, tier, shard, nshards):
     step = 1
     for i in range(shard * step, len(bs), nshards * step):
         yield {'lane': 'exhaustive-small', 'box': bs[i], 'rs': i, 'exhaustive': True}
-    n = 1500 if tier == 'quick' else 30000
+    n = 3000 if tier == 'quick' else 40000
     for i in range(n):
         yield {'lane': rng.choice(['random', 'random', 'from-region']), 'rs': rng.randrange(2 ** 31)}
 
